@@ -378,7 +378,9 @@ def proposal_validation(c, iface, name):
         good = lambda: Gaussian(np.zeros(n), 1.0)
         bad = {'flagged_asymmetric': lambda: Gamma(2.0 * np.ones(n), 1.0),
                'symmetry_not_declared': lambda: UserDefinedDistribution(dim=n, sample_func=lambda rng=None: np.ones(n)),
-               'symmetric_flag_removed': lambda: Gaussian(np.zeros(n), 1.0, is_symmetric=None)}
+               'symmetric_flag_removed': lambda: Gaussian(np.zeros(n), 1.0, is_symmetric=None),
+               # the proposal's draws are used as INCREMENTS: a density symmetric about a non-zero mean gives q(x'|x) != q(x|x')
+               'flagged_symmetric_but_not_centred_at_zero': lambda: Gaussian(np.ones(n), 1.0)}
     else:   # component-wise: proposals are conditional on location and scale
         good = lambda: Normal(mean=lambda location: location, std=lambda scale: scale, geometry=n)
         bad = {'flagged_asymmetric': lambda: InverseGamma(shape=3.0, location=lambda location: location, scale=lambda scale: scale, geometry=n),
